@@ -267,7 +267,7 @@ func runC02(c *core.Ctx) {
 				pb := t.Alloc(signal.Allocator{Channels: ch, Length: 4, Capacity: 4})
 				stampAll(w, pb)
 				pv := w.Adopt(pb, "p")
-				w.Slice(pv, rng[0], rng[1], "w1")
+				w1 := w.Slice(pv, rng[0], rng[1], "w1")
 				src := t.Alloc(signal.Allocator{Channels: ch, Length: 3, Capacity: 3})
 				stampAll(w, src)
 				sv := w.Adopt(src, "src")
@@ -283,6 +283,16 @@ func runC02(c *core.Ctx) {
 				}
 				if ps := w.CheckAll(); len(ps) > 0 {
 					report(c, inst+"|slice-after-growth", caseID, ps, d)
+					continue
+				}
+				// and a window of the OLD window (which stayed on the old storage):
+				// it is a window of that old storage, whatever the parent did since
+				w3 := w.Slice(w1, 0, w1.M.Cap/ch, "w1[0:cap]")
+				if w3.M.Len > 0 {
+					w.SetSample(w3, w3.M.Len-1, w.NextStamp())
+				}
+				if ps := w.CheckAll(); len(ps) > 0 {
+					report(c, inst+"|window-of-a-window-left-behind-by-growth", caseID, ps, d)
 				}
 				c.Obs("slices_repeated_after_parent_growth", 1)
 			}
